@@ -1307,6 +1307,13 @@ func (gen *Generator) generateSyntaxQuoteArray(arg Sexp) error {
 		return fmt.Errorf("arg to generateSyntaxQuoteArray() must be an array; got %T", a)
 	}
 
+	// like GenerateArray: a value handed to eval can contain itself.
+	gen.arrayDepth++
+	defer func() { gen.arrayDepth-- }()
+	if gen.arrayDepth > maxArrayLiteralDepth {
+		return fmt.Errorf("array nested more than %d deep (does it contain itself?)", maxArrayLiteralDepth)
+	}
+
 	gen.AddInstruction(PushInstr{SexpMarker})
 	for _, expr := range arr.Val {
 		gen.AddInstruction(PushInstr{SexpMarker})
@@ -1330,6 +1337,11 @@ func (gen *Generator) generateSyntaxQuoteHash(arg Sexp) error {
 		hash = a
 	default:
 		return fmt.Errorf("arg to generateSyntaxQuoteHash() must be a hash; got %T", a)
+	}
+	gen.arrayDepth++
+	defer func() { gen.arrayDepth-- }()
+	if gen.arrayDepth > maxArrayLiteralDepth {
+		return fmt.Errorf("hash nested more than %d deep (does it contain itself?)", maxArrayLiteralDepth)
 	}
 	n := HashCountKeys(hash)
 	gen.AddInstruction(PushInstr{SexpMarker})
